@@ -868,6 +868,11 @@ def odd_docs(dm):
         ("delay-internal", '<send event="x" target="#_internal" delay="1s"/>'),
         ("ok", '<send event="x" delay="5ms" id="d1"/><cancel sendid="d1"/>'),
         ("ok", '<cancel sendid="never-sent"/>'),
+        ("ok", '<send event="x" delay="3ms" id="d2"/>'),
+        ("ok", '<send event="x" delay="3ms"/>'),
+        ("ok", '<send event="x" delay="3ms" idlocation="loc"/>'),
+        ("ok", '<send event="x" delayexpr="\'4ms\'" id="d3"/><send event="x" delayexpr="\'4ms\'" id="d3"/>'),
+        ("ok", '<send event="x" delay="2ms" id="d4"/><cancel sendid="d4"/><send event="x" delay="2ms" id="d4"/>'),
         ("expr", '<cancel sendidexpr=%s/>' % E),
         ("ok", '<send event="x" idlocation="loc" target="#_internal"/>'),
     ]
@@ -1425,6 +1430,7 @@ def c14_docs(dm):
         '<transition event="fin" target="f"><send target="#_parent" event="bye"/></transition>' \
         '</state><final id="f"/></scxml>'
     plain = lambda nm: (hdr % (dm, nm)) + '<datamodel><data id="a" expr="5"/></datamodel><state id="c"><onentry><script>mark(\'cstart\', _name, a)</script>' \
+                                            + ('<send target="#_parent" event="hi2"/>' if nm == "C2" else "") + \
                                             '</onentry><transition event="stop" target="f"/></state><final id="f"/></scxml>'
     recv = "<script>mark('recv', _event.name, _event.invokeid)</script>"
     pdoc = (hdr % (dm, "P")) + '<datamodel><data id="x" expr="0"/></datamodel>' \
